@@ -42,7 +42,10 @@ def run_history(rec, cfg, script, sid=1, variant=0):
                 op = "getnext"
             if (variant + nsend) % 5 == 1:
                 op = "getbulk"                      # every kind of request goes through the cipher's private buffer
-            w, exc = sess.send(op, oids if op not in ("getnext", "getbulk") else oids[:1], maxrep=4 if op == "getbulk" else None)
+            if (variant + nsend) % 7 == 3 or (nsend == 1 and variant % 2 == 0):
+                op = "refresh"                      # the time-synchronisation probe is a message of the session like any other (the first one
+                                                    # goes out while the session knows neither boots nor time)
+            w, exc = sess.send(op, ([] if op == "refresh" else oids) if op not in ("getnext", "getbulk") else oids[:1], maxrep=4 if op == "getbulk" else None)
             req = ag.Request(cfg, w) if w is not None else None
         elif act == "reply-enc":
             if req is None:
